@@ -161,12 +161,30 @@ func TestC10_SlowConsumers(t *testing.T) {
 		total := rapid.IntRange(0, 4*kcache.EventBufsiz).Draw(t, "events")
 		var ref []string
 		rootBase := w.nodes[0].eventCount()
+		// one stalled plain subscriber may be CLOSED in the middle of a burst (its buffer possibly full,
+		// its unsubscribe racing with the fan-out of the following events): the others lose nothing
+		closeAt, closedVictim := -1, false
+		for _, v := range victims {
+			if v.n.kind == "sub" && total > 0 && closeAt < 0 && rapid.IntRange(0, 2).Draw(t, "closeVictim") == 0 {
+				closeAt = rapid.IntRange(0, total-1).Draw(t, "closeAt")
+			}
+		}
 		for sent := 0; sent < total; {
 			n := burst
 			if total-sent < n {
 				n = total - sent
 			}
 			for i := 0; i < n; i++ {
+				if sent+i == closeAt {
+					for vi, v := range victims {
+						if v.n.kind == "sub" {
+							w.closeNode(v.n)
+							victims = append(victims[:vi:vi], victims[vi+1:]...)
+							closedVictim = true
+							break
+						}
+					}
+				}
 				k := rapid.SampledFrom(keys).Draw(t, "k")
 				if w.api.has(k[0], k[1]) && rapid.IntRange(0, 3).Draw(t, "del") == 0 {
 					w.del(k[0], k[1])
@@ -228,7 +246,7 @@ func TestC10_SlowConsumers(t *testing.T) {
 			isVictim[v.n] = true
 		}
 		for _, n := range w.nodes {
-			if n.kind != "sub" || isVictim[n] {
+			if n.kind != "sub" || isVictim[n] || n.closed {
 				continue
 			}
 			// a healthy plain subscriber attached at a quiescent point sees exactly what its publisher's own leaf sees
@@ -374,6 +392,6 @@ func TestC10_SlowConsumers(t *testing.T) {
 		}
 		statCase("C10", hashString(strings.Join(w.hist, ";")), nt, func() interface{} {
 			return map[string]interface{}{"nodes": len(w.nodes), "stalled": vkinds, "events": total, "history_head": hist}
-		}, fmt.Sprintf("refiltered_a_stalled_filtered_subscription=%v", refilteredStalled), fmt.Sprintf("stalled=%d", min(len(victims), 3)), fmt.Sprintf("partial_resume_after_overflow=%v", partial), fmt.Sprintf("resumed_while_events_kept_coming=%v", underLoad), fmt.Sprintf("stream_over_buffer=%v", total > kcache.EventBufsiz), "typed_tree="+cfg.typed)
+		}, fmt.Sprintf("refiltered_a_stalled_filtered_subscription=%v", refilteredStalled), fmt.Sprintf("stalled=%d", min(len(victims), 3)), fmt.Sprintf("partial_resume_after_overflow=%v", partial), fmt.Sprintf("resumed_while_events_kept_coming=%v", underLoad), fmt.Sprintf("stream_over_buffer=%v", total > kcache.EventBufsiz), fmt.Sprintf("closed_a_stalled_subscriber_mid_burst=%v", closedVictim), "typed_tree="+cfg.typed)
 	})
 }
